@@ -3,7 +3,8 @@
 from __future__ import annotations
 
 import math
-from typing import TYPE_CHECKING, ClassVar, Literal
+from copy import deepcopy
+from typing import TYPE_CHECKING, ClassVar, Literal, Self
 from warnings import warn
 
 import numpy as np
@@ -129,8 +130,41 @@ class ForceBias(SingleDriver):
 
         dictionary.setdefault("attributes", {})
         dictionary["attributes"]["masses_scaling_power"] = self.masses_scaling_power
+        dictionary["attributes"]["shaped_masses"] = np.array(self.shaped_masses)
+
+        dictionary["atoms"] = self.atoms.copy()
 
         return dictionary
+
+    @classmethod
+    def from_dict(cls, data: dict[str, Any], **kwargs_override: Any) -> Self:
+        """
+        Create a `ForceBias` object from a dictionary, e.g. the content of a restart file.
+
+        Parameters
+        ----------
+        data : dict[str, Any]
+            The dictionary representation of the object.
+        **kwargs_override : Any
+            Additional keyword arguments to override the ones in the dictionary.
+
+        Returns
+        -------
+        Self
+            The `ForceBias` object created from the dictionary.
+        """
+        data = deepcopy(data)
+
+        kwargs = data.get("kwargs", {})
+        kwargs = kwargs | kwargs_override
+
+        fbmc = cls(data["atoms"], **kwargs)
+        fbmc._rng.bit_generator.state = data["rng_state"]
+
+        for key, value in data.get("attributes", {}).items():
+            setattr(fbmc, key, value)
+
+        return fbmc
 
     @property
     def masses_scaling_power(self) -> ShapedMasses | float:
@@ -374,6 +408,30 @@ class AdaptiveForceBias(ForceBias):
                 self.default_logger.add_field(
                     "EnergyVar", lambda: self.variation_coef, str_format="{:>16.6f}"
                 )
+
+    def to_dict(self) -> dict[str, Any]:
+        """
+        Convert the `AdaptiveForceBias` object to a dictionary.
+
+        Returns
+        -------
+        dict[str, Any]
+            A dictionary representation of the `AdaptiveForceBias` object.
+        """
+        dictionary = super().to_dict()
+
+        del dictionary["kwargs"]["delta"]
+        dictionary["kwargs"].update(
+            {
+                "min_delta": self.min_delta,
+                "max_delta": self.max_delta,
+                "scheme": self.scheme,
+                "reference_variance": self.reference_variance,
+                "update_function": self.update_function,
+            }
+        )
+
+        return dictionary
 
     def update_delta(self) -> None:
         """
